@@ -24,4 +24,5 @@ INVARIANT C05_ProvisionalBound
 INVARIANT C05_MergePartial
 INVARIANT C05_RawDescribesComponents
 INVARIANT C05_MergeFinal
+INVARIANT C05_IngroupPassIsExpected
 CHECK_DEADLOCK TRUE
